@@ -3,7 +3,7 @@
 // Contracts for deductive verification (read by /verif/govc). Comment-only: this file adds no code.
 package keeper
 
-//@ store Worker kv=market/Worker/value/ key=market_WorkerKey val=github.com/SaoNetwork/sao/x/market/types.Worker
+//@ store Worker kv=market/Worker/value/ key=market_WorkerKey val=github.com/SaoNetwork/sao/x/market/types.Worker keyfield=Workername
 
 //@ accessor get (Keeper) GetWorker Worker(workername)
 //@ accessor set (Keeper) SetWorker Worker(worker.Workername) worker
